@@ -318,9 +318,20 @@ def record_history(chk, hseed, kinds, tid, ndims=3, big=True, nops=4, asset=None
             f2 = conts[src2]["fields"]
 
             def sub(fs):
-                if rng.random() < 0.4:
+                r = rng.random()
+                if r < 0.35:
                     return ["None"]
-                idx = sorted(rng.sample(range(len(fs)), rng.randint(1, len(fs))))
+                if r < 0.5 and len(fs) >= 4:
+                    # a run of consecutive fields, first and last in place, the inner ones out of file order
+                    n = rng.randint(4, min(len(fs), 6))
+                    a = rng.randrange(len(fs) - n + 1)
+                    inner = list(range(a + 1, a + n - 1))
+                    while inner == sorted(inner):
+                        rng.shuffle(inner)
+                    return [fs[i] for i in [a] + inner + [a + n - 1]]
+                idx = rng.sample(range(len(fs)), rng.randint(1, len(fs)))
+                if r < 0.8:
+                    idx = sorted(idx)
                 return [fs[i] for i in idx]
             v1, v2 = sub(fields), sub(f2)
             out = reuse_out(src, locals().get("src2") if kind == "combine" else None)
